@@ -1,19 +1,183 @@
 // C19: only well-formed, correctly addressed SysEx messages take effect.
+// Real opn2_init + opn2_setDeviceIdentifier + opn2_rt_systemExclusive; the message is an
+// exact-size array of LEN symbolic bytes (one obligation per LEN), the prior state of a
+// symbolic probe channel, the synth mode, the master volume and the device id are symbolic.
 #include "player.hpp"
 
 #ifndef LEN
 #define LEN 8
 #endif
+#ifndef CH
+#define CH 0
+#endif
+
+enum { K_REJECT = 0, K_DONTCARE, K_GM_ON, K_GM_OFF, K_MASTERVOL, K_GS_RESET, K_GS_DRUM, K_XG_ON };
+
+// Reference written from the property text (and the MIDI/GS/XG message formats it names)
+static int classify(const unsigned char *m, unsigned len, unsigned id)
+{
+    if(len < 4 || m[0] != 0xF0 || m[len - 1] != 0xF7)
+        return K_REJECT;
+    // a data byte with the high bit set is not a well-formed SysEx body: neither outcome is demanded
+    for(unsigned i = 1; i + 1 < len; i++)
+        if(m[i] & 0x80)
+            return K_DONTCARE;
+    unsigned man = m[1], dev = m[2];
+    if(man == 0x7E || man == 0x7F)
+    {
+        bool addressed = (dev == id) || (dev == 0x7F);
+        if(!addressed)
+            return K_REJECT;
+        if(man == 0x7E && len == 6 && m[3] == 0x09 && m[4] == 0x01) return K_GM_ON;
+        if(man == 0x7E && len == 6 && m[3] == 0x09 && m[4] == 0x02) return K_GM_OFF;
+        if(man == 0x7F && len == 8 && m[3] == 0x04 && m[4] == 0x01) return K_MASTERVOL;
+        return K_REJECT;
+    }
+    if(man == 0x41)
+    {
+        if(dev == 0x7F)
+            return K_DONTCARE; // broadcast to a Roland device: the property leaves it open
+        if(dev != (0x10 | id))
+            return K_REJECT;
+        if(len != 11 || m[3] != 0x42 || m[4] != 0x12)
+            return K_REJECT;
+        unsigned sum = (m[5] + m[6] + m[7] + m[8]) & 0x7F;
+        unsigned chk = (128 - sum) & 0x7F;
+        if(m[9] != chk)
+            return K_REJECT;
+        if(m[5] == 0x40 && m[6] == 0x00 && m[7] == 0x7F) return K_GS_RESET;
+        if(m[5] == 0x00 && m[6] == 0x00 && m[7] == 0x7F) return K_GS_RESET;
+        if(m[5] == 0x40 && (m[6] & 0xF0) == 0x10 && m[7] == 0x15) return K_GS_DRUM;
+        return K_REJECT;
+    }
+    if(man == 0x43)
+    {
+        if(dev == 0x7F)
+            return K_DONTCARE;
+        if(dev != (0x10 | id))
+            return K_REJECT;
+        if(len == 9 && m[3] == 0x4C && m[4] == 0x00 && m[5] == 0x00 && m[6] == 0x7E) return K_XG_ON;
+        return K_REJECT;
+    }
+    return K_REJECT;
+}
+
+struct Snap
+{
+    unsigned mode; unsigned char master;
+    unsigned char volume, expression, panning, bank_lsb, bank_msb, patch, vibrato, aftertouch, brightness, lastlrpn, lastmrpn;
+    bool sustain, softPedal, nrpn, is_xg_percussion;
+    int bend, bendsense_msb, bendsense_lsb;
+    unsigned writes;
+};
+
+static void take(Snap &s, OPNMIDIplay *p, unsigned c)
+{
+    OPNMIDIplay::MIDIchannel &ch = p->m_midiChannels[c];
+    s.mode = p->m_synthMode; s.master = p->m_synth->m_masterVolume;
+    s.volume = ch.volume; s.expression = ch.expression; s.panning = ch.panning; s.bank_lsb = ch.bank_lsb;
+    s.bank_msb = ch.bank_msb; s.patch = ch.patch; s.vibrato = ch.vibrato; s.aftertouch = ch.aftertouch;
+    s.brightness = ch.brightness; s.lastlrpn = ch.lastlrpn; s.lastmrpn = ch.lastmrpn; s.sustain = ch.sustain;
+    s.softPedal = ch.softPedal; s.nrpn = ch.nrpn; s.is_xg_percussion = ch.is_xg_percussion; s.bend = ch.bend;
+    s.bendsense_msb = ch.bendsense_msb; s.bendsense_lsb = ch.bendsense_lsb; s.writes = g_tap.writes;
+}
+
+static bool same(const Snap &a, const Snap &b, bool except_drumflag, bool except_master)
+{
+    return a.mode == b.mode && (except_master || a.master == b.master) && a.volume == b.volume &&
+           a.expression == b.expression && a.panning == b.panning && a.bank_lsb == b.bank_lsb && a.bank_msb == b.bank_msb &&
+           a.patch == b.patch && a.vibrato == b.vibrato && a.aftertouch == b.aftertouch && a.brightness == b.brightness &&
+           a.lastlrpn == b.lastlrpn && a.lastmrpn == b.lastmrpn && a.sustain == b.sustain && a.softPedal == b.softPedal &&
+           a.nrpn == b.nrpn && (except_drumflag || a.is_xg_percussion == b.is_xg_percussion) && a.bend == b.bend &&
+           a.bendsense_msb == b.bendsense_msb && a.bendsense_lsb == b.bendsense_lsb;
+}
 
 extern "C" void harness_sysex(void)
 {
     OPN2_MIDIPlayer *dev = opn2_init(44100);
     VASSUME(dev != NULL);
     OPNMIDIplay *p = player_of(dev);
-    unsigned char msg[LEN + 1];
+
+    unsigned id = nondet_uchar();
+    VASSUME(id <= 15);
+    VASSERT(opn2_setDeviceIdentifier(dev, id) == 0, "device ids 0..15 are accepted");
+
+    unsigned modesel = nondet_uchar();
+    VASSUME(modesel <= 3);
+    p->m_synthMode = modesel == 0 ? OPNMIDIplay::Mode_GM : modesel == 1 ? OPNMIDIplay::Mode_GS :
+                     modesel == 2 ? OPNMIDIplay::Mode_XG : OPNMIDIplay::Mode_GM2;
+    p->m_synth->m_masterVolume = nondet_uchar() & 0x7F;
+
+    // the probe channel is concrete per obligation: a symbolic index into the array of 1.2 KiB
+    // MIDIchannel structs makes every later access a 16-way case split over the whole array
+    const unsigned c = CH;
+    {
+        OPNMIDIplay::MIDIchannel &ch = p->m_midiChannels[c];
+        ch.volume = nondet_uchar(); ch.expression = nondet_uchar(); ch.panning = nondet_uchar();
+        ch.bank_lsb = nondet_uchar(); ch.bank_msb = nondet_uchar(); ch.patch = nondet_uchar();
+        ch.vibrato = nondet_uchar(); ch.aftertouch = nondet_uchar(); ch.brightness = nondet_uchar();
+        ch.lastlrpn = nondet_uchar(); ch.lastmrpn = nondet_uchar();
+        ch.sustain = nondet_uchar() & 1; ch.softPedal = nondet_uchar() & 1; ch.nrpn = nondet_uchar() & 1;
+        ch.is_xg_percussion = nondet_uchar() & 1;
+        ch.bend = (int)nondet_ushort() - 8192;
+        ch.bendsense_msb = nondet_uchar() & 0x7F; ch.bendsense_lsb = nondet_uchar() & 0x7F;
+    }
+
+    unsigned char msg[LEN + 1]; // LEN == 0 needs a non-empty array type; only LEN bytes are passed
     for(unsigned i = 0; i < LEN; i++)
         msg[i] = nondet_uchar();
-    int r = opn2_rt_systemExclusive(dev, msg, LEN);
-    VASSERT(r == 0 || r == 1, "returns 0/1");
+#if LEN > 0
+    unsigned char exact[LEN];
+    for(unsigned i = 0; i < LEN; i++)
+        exact[i] = msg[i];
+    const unsigned char *m = exact;   // exact-size object: any read past LEN is a bounds failure
+#else
+    const unsigned char *m = msg;
+#endif
+
+    Snap before, after;
+    take(before, p, c);
+    int kind = classify(msg, LEN, id);
+
+    int r = opn2_rt_systemExclusive(dev, m, LEN);
+
+    take(after, p, c);
+    VASSERT(r == 0 || r == 1, "returns 0 or 1");
+    if(kind == K_REJECT)
+        VASSERT(r == 0, "every byte string that is not one of the recognised, correctly addressed messages is rejected");
+    if(kind >= K_GM_ON)
+        VASSERT(r == 1, "recognised, correctly addressed message is accepted");
+    if(r == 0)
+    {
+        VASSERT(same(before, after, false, false), "rejected message leaves mode, master volume and controllers untouched");
+        VASSERT(after.writes == before.writes, "rejected message writes nothing to the chips");
+    }
+    else
+    {
+        if(kind == K_MASTERVOL)
+        {
+            VASSERT(after.master == (msg[6] & 0x7F), "master volume = 14-bit value >> 7");
+            VASSERT(same(before, after, false, true), "master volume message changes nothing else");
+        }
+        else if(kind == K_GS_DRUM)
+        {
+            static const unsigned char map[16] = { 9, 0, 1, 2, 3, 4, 5, 6, 7, 8, 10, 11, 12, 13, 14, 15 };
+            unsigned target = map[msg[6] & 0x0F];
+            bool want = msg[8] == 1 || msg[8] == 2;
+            VASSERT(p->m_midiChannels[target].is_xg_percussion == want, "GS drum-part flag set on the addressed part");
+            VASSERT(same(before, after, c == target, false), "drum-part message changes nothing else");
+        }
+        else if(kind == K_GM_ON || kind == K_GM_OFF || kind == K_GS_RESET || kind == K_XG_ON)
+        {
+            if(kind == K_GM_ON) VASSERT(after.mode == OPNMIDIplay::Mode_GM, "GM on selects GM mode");
+            if(kind == K_GS_RESET) VASSERT(after.mode == OPNMIDIplay::Mode_GS, "GS reset selects GS mode");
+            if(kind == K_XG_ON) VASSERT(after.mode == OPNMIDIplay::Mode_XG, "XG on selects XG mode");
+            VASSERT(after.volume == 100 && after.expression == 127 && after.panning == 64 && after.brightness == 127 &&
+                    after.bend == 0 && !after.sustain && !after.softPedal && after.vibrato == 0 && after.aftertouch == 0 &&
+                    after.lastlrpn == 0 && after.lastmrpn == 0 && !after.nrpn && after.bendsense_msb == 2 &&
+                    after.bendsense_lsb == 0, "mode switch resets the controllers");
+            VASSERT(after.master == 127, "mode switch resets the master volume");
+        }
+    }
     VWITNESS();
 }
